@@ -17,7 +17,8 @@ rsync -a --exclude work --exclude .build --exclude .git --exclude replays /verif
 cd /tmp/ma-verif || exit 9
 for f in selftest/mutants/*.diff; do
   b=$(basename $f .diff); checks=""
-  for k in "${!want[@]}"; do case $b in $k*) checks=${want[$k]};; esac; done
+  best=0
+  for k in "${!want[@]}"; do case $b in $k*) if [ ${#k} -gt $best ]; then best=${#k}; checks=${want[$k]}; fi;; esac; done
   [ "$checks" = "SKIP" ] && { echo "$b skipped (equivalent since a later fix)"; continue; }
   [ -z "$checks" ] && { echo "$b NO-MAPPING"; continue; }
   git -C /tmp/ma-repo apply /tmp/ma-verif/$f || { echo "$b patch-does-not-apply"; continue; }
